@@ -37,7 +37,7 @@ c10f(M, P, S, T, W, R) :-
     ;   R0 = no ),
     set_prolog_flag(occurs_check, false),
     c10r(R0, P, S, T, W, R).
-c10g(eq, S, T) :- unify_with_occurs_check(S, T).
+c10g(eq, S, T) :- S = T.
 c10g(ceq, S, T) :- call(=, S, T).
 c10g(uwoc, S, T) :- unify_with_occurs_check(S, T).
 c10g(neq, S, T) :- S \= T.
